@@ -176,9 +176,9 @@ def check_al_ws(case):
     w = onp.linalg.eigvalsh(0.5 * (H + H.T))
     if not (w[0] > 0 and w[-1] / w[0] < 1e8):
         return Result(inconclusive='hessian-not-spd')
-    g_old = onp.asarray(jax.grad(AL)(np.array(x), p_old))
-    g_new = onp.asarray(jax.grad(AL)(np.array(x), p_new))
-    rhs = g_old - g_new                     # = J_p (p_old - p_new) exactly: the gradient is linear in slot 0
+    # the gradient depends on slot 0 only through the term -b.x of the objective family: J_p (p_old - p_new) = b_new - b_old
+    # (taken as this difference of the stored parameters, not as a difference of two gradients, which would cancel)
+    rhs = onp.asarray(p_new[0]) - onp.asarray(p_old[0])
     o.p = p_old
     with capture_stdout():
         o.update_precond(np.array(x))
